@@ -54,8 +54,13 @@ func (st *SplitTracker) TrackAssigned(shards []SourceSplitterShard) {
 		st.assignedSplits[shard.ShardID] = struct{}{}
 	}
 
-	if len(shards) > 0 {
-		st.LastAssignedSplitID = shards[len(shards)-1].ShardID
+	// The marker is where shard discovery resumes, so it must only move forward:
+	// re-assigning older shards (after a restore) must not make discovery list
+	// shards again that were already read to the end.
+	for _, shard := range shards {
+		if shard.ShardID > st.LastAssignedSplitID {
+			st.LastAssignedSplitID = shard.ShardID
+		}
 	}
 }
 
